@@ -96,10 +96,12 @@ def jobs(tier):
     orders = ["asc"] if tier == "quick" else ["asc", "desc"]
     plist = [(p, None) for p in pairs(1, 1)]
     if tier != "quick":
-        plist += [(p, 2) for p in pairs(2, 1)[::3]] + [(p, 2) for p in pairs(1, 2)[1::3]]
+        plist += [(p, 2) for p in pairs(2, 1)[::15]] + [(p, 2) for p in pairs(1, 2)[7::15]]
     for cfg in cfgs:
         for order in orders:
             for sc, k in plist:
+                if k is not None and order != "asc":
+                    continue
                 out.append({"prop": PROP, "cfg": cfg, "order": order, "base": "B2", "scripts": A.stamp(sc),
                             "mode": {"k": k, "cap": 2500, "depth": 70, "audit": 64 if tier == "quick" else 8}})
     other = [["create", "n2"]] if tier == "quick" else [["create", "n2"], ["write", "h"], ["delete", "a"]]
@@ -124,7 +126,7 @@ def run_job(job):
 
 def main(tier):
     rep = report.Report(PROP, tier,
-                        rule="from base B2 every pair of per-side sequences (1+1 full; thorough adds a third of the 2+1/1+2 "
+                        rule="from base B2 every pair of per-side sequences (1+1 full; thorough adds every 15th of the 2+1/1+2 "
                              "pairs with <=2 deviations) whose named paths are disjoint under ancestry; every interleaving "
                              "with engine steps; at quiet state both trees equal the reference merge (dict tree model)",
                         technique="explicit-state model checking of the implementation against a reference merge model")
